@@ -1,11 +1,14 @@
 import StsModel.Drv.Ranges
 import StsModel.Drv.Stage
+import StsModel.Drv.LogFmt
 namespace Sts.Drv
 
 def main (args : List String) : IO UInt32 :=
   match args with
   | ["ranges"] => run rangesStep []
   | ["stage"] => run stageStep {}
+  | ["logfmt"] => run logfmtStep {}
+  | ["logfmt-orig"] => run logfmtOrigStep {}
   | _ => do
     IO.eprintln "usage: stsdrv <component>   (ranges)"
     return 2
